@@ -308,6 +308,13 @@ def run(chk, repo):
                 inj = v == unparse(fl[0].target.elts[0])
             else:
                 inj = len(incs) == 1 and unparse(incs[0].target) == v and len(fl[0].body) == 2
+    if not fl:
+        # {tx: i for i, tx in enumerate(<transcripts>)}: the same enumeration as a dict comprehension
+        for dc in [x for x in ast.walk(body) if isinstance(x, ast.DictComp) and len(x.generators) == 1 and not x.generators[0].ifs]:
+            g_ = dc.generators[0]
+            if isinstance(g_.iter, ast.Call) and call_name(g_.iter) == 'enumerate' and 'self.transcripts' in unparse(g_.iter) and isinstance(g_.target, ast.Tuple) \
+                    and len(g_.target.elts) == 2 and len(g_.iter.args) == 1 and not g_.iter.keywords:
+                inj = unparse(dc.value) == unparse(g_.target.elts[0]) and unparse(dc.key) == unparse(g_.target.elts[1])
     chk.ob('C06.d', 'rank is built by enumeration (injective)', gr.where, inj,
            'get_transcript_rank does not assign consecutive distinct ranks', key=gr.qual + '::enumeration', fn=gr.qual)
 
